@@ -461,7 +461,19 @@ func c20Structure(rt *rapid.T, target int) []byte {
 	n := rapid.IntRange(1, 30).Draw(rt, "struct_n") // chains stay below the open finding's signature
 	switch target {
 	case c20GRL:
-		switch rapid.IntRange(0, 13).Draw(rt, "struct_kind") {
+		switch rapid.IntRange(0, 14).Draw(rt, "struct_kind") {
+		case 14:
+			// a complete rule in which exactly one part (drawn) is left out, with drawn separators between the parts
+			sep := func(label string) string {
+				return rapid.SampledFrom([]string{" ", " ", "\n", " // c\n", " /* c */ ", "\t", " \x01 ", ""}).Draw(rt, label)
+			}
+			parts := []string{"rule", "R", `"d"`, "salience 1", "{", "when", "F.A == 1", "then", "F.B = 2;", "}"}
+			parts[rapid.IntRange(0, len(parts)-1).Draw(rt, "left_out_part")] = ""
+			var b strings.Builder
+			for i, p := range parts {
+				b.WriteString(p + sep(fmt.Sprintf("s%d", i)))
+			}
+			return []byte(b.String())
 		case 13:
 			// string literals in every lexical form the grammar admits or nearly admits (doubled quotes, escapes the
 			// decoder does not know, a backslash at the end, adjacent literals), at every place a literal may stand
@@ -632,7 +644,7 @@ func c20GenInput(rt *rapid.T, paths []gen.PathInfo, stCfg gen.StateCfg) c20Input
 
 func c20GenInput0(rt *rapid.T, paths []gen.PathInfo, stCfg gen.StateCfg) c20Input {
 	target := rapid.IntRange(0, 3).Draw(rt, "target")
-	mode := rapid.SampledFrom([]string{"random", "valid", "mutant", "mutant", "mutant", "structure"}).Draw(rt, "mode")
+	mode := rapid.SampledFrom([]string{"random", "valid", "mutant", "mutant", "mutant", "structure", "structure"}).Draw(rt, "mode")
 	in := c20Input{Target: target}
 	if mode == "random" {
 		n := rapid.IntRange(0, 64).Draw(rt, "rnd_len")
@@ -774,7 +786,82 @@ func TestC20(t *testing.T) {
 			}
 		}
 	})
+	c20Corpus(t, col)
 	c20KnownProbes(t, col)
+}
+
+// c20Corpus runs an enumerated set of structural inputs in every run (divided among the shards): the shapes are
+// the ones the generated search draws from, laid out systematically, so that a loader defect that needs one
+// particular shape does not depend on the draw.
+func c20Corpus(t *testing.T, col *stats.Collector) {
+	var ins []c20Input
+	add := func(target int, kind, text string) {
+		ins = append(ins, c20Input{Target: target, Kind: "corpus:" + kind, Data: []byte(text)})
+	}
+	// (1) a complete rule with exactly one part left out, for every part and every separator
+	for _, sep := range []string{" ", "\n", " // c\n", " /* c */ ", "\t", " \x01 ", "", "  \n\n"} {
+		for out := 0; out < 10; out++ {
+			parts := []string{"rule", "R", `"d"`, "salience 1", "{", "when", "F.A == 1", "then", "F.B = 2;", "}"}
+			parts[out] = ""
+			add(c20GRL, fmt.Sprintf("rule_without_part_%d", out), strings.Join(parts, sep)+sep)
+		}
+	}
+	// (2) every string literal form at every place a literal may stand
+	for _, l := range c20StringForms {
+		add(c20GRL, "literal_in_comparison", "rule D { when F.S == "+l+" then Retract(\"D\"); }")
+		add(c20GRL, "literal_as_argument", "rule D { when F.S.In("+l+", "+l+") then F.S = "+l+"; }")
+		add(c20GRL, "literal_as_description", "rule D "+l+" salience 1 { when true then F.S = "+l+" + "+l+"; }")
+		add(c20GRL, "literal_as_key", "rule D { when F.M["+l+"] == 1 && "+l+".Len() > 0 then F.M["+l+"] = 2; Retract("+l+"); }")
+		add(c20GRL, "literal_alone", "rule D { when "+l+" then "+l+"; }")
+		doc := map[string]interface{}{"name": "D", "when": "F.S == " + l, "then": []interface{}{"F.S = " + l, map[string]interface{}{"set": []interface{}{"F.S", map[string]interface{}{"const": l}}}}}
+		if b, err := json.Marshal(doc); err == nil {
+			add(c20JSONRule, "literal_in_json_rule", string(b))
+			add(c20JSONTranslate, "literal_in_json_rule", string(b))
+		}
+	}
+	// (3) very many errors on one long line
+	for _, unit := range []string{"# @ $ ~ ", ": ", "\" ", "} { ", "rule ", "1e ", "0x "} {
+		for _, n := range []int{5, 15, 30} {
+			add(c20GRL, "many_errors_on_one_line", strings.Repeat(unit, n*1000/len(unit)))
+		}
+	}
+	for _, n := range []int{5, 15, 30} {
+		var parts []string
+		for i := 0; i < n*6; i++ {
+			parts = append(parts, fmt.Sprintf(`{"name":"R%d","desc":"d","salience":3,"when":{"and":[{"eq":[{"obj":"F.B"},{"const":true}]},{"lt":["F.I64",10]}]},"then":[{"set":["F.I64",{"plus":["F.I64",1]}]}]}`, i))
+		}
+		add(c20GRL, "minified_json_as_grl", "["+strings.Join(parts, ",")+"]")
+	}
+	shard, nshards := 0, 1
+	if v, err := strconv.Atoi(os.Getenv("VERIF_SHARD")); err == nil {
+		shard = v
+	}
+	if v, err := strconv.Atoi(os.Getenv("VERIF_NSHARDS")); err == nil && v > 0 {
+		nshards = v
+	}
+	var mine []c20Input
+	for i, in := range ins {
+		if i%nshards == shard%nshards {
+			mine = append(mine, in)
+		}
+	}
+	for from := 0; from < len(mine); from += 24 {
+		batch := mine[from:min(from+24, len(mine))]
+		res, err := c20RunBatch(batch)
+		if err != nil {
+			t.Fatalf("harness: %v", err)
+		}
+		for i, in := range batch {
+			r := res[i]
+			nt := r.Status == "ok" || (r.Status == "error" && c20PastFirstStep(in))
+			col.Case(string(in.Data)+c20TargetName[in.Target], nt, "target:"+c20TargetName[in.Target], "kind:corpus", "status:"+r.Status+r.Detail)
+			if v, known := c20Judge(in, r); v != "" && !known {
+				path := col.Violation("C20", "C20/"+c20TargetName[in.Target]+"/"+firstWords(v), v+"\ninput kind: "+in.Kind, c20Describe(in))
+				t.Errorf("C20 violated: %s (replay %s)", v, path)
+				return
+			}
+		}
+	}
 }
 
 func truncateStr(s string, n int) string {
